@@ -88,7 +88,7 @@ func init() {
 			return uniqueFn(fns, func(f *Fn) bool { return hasCall(c, f.SSA, Invoke("dagsync.Syncer.Sync")) })
 		}},
 		"dagsync.factory": {"dagsync", "handler.makeSyncer", func(c *Ctx, fns []*Fn) *ssa.Function {
-			return uniqueFn(fns, func(f *Fn) bool { return hasCall(c, f.SSA, Call("ipnisync.Sync).NewSyncer")) })
+			return c.outermost(uniqueFn(fns, func(f *Fn) bool { return hasCall(c, f.SSA, Call("ipnisync.Sync).NewSyncer")) }))
 		}},
 		"dagsync.limit": {"dagsync", "recursionLimit", func(c *Ctx, fns []*Fn) *ssa.Function {
 			return uniqueFn(fns, func(f *Fn) bool {
